@@ -19,7 +19,17 @@ nesting depth. Clause by clause:
 * export = ascending latest survivors; reverted never appear ... `export_survivors`, `export_after_rollback`
 * BlockState: accounts + every staged storage + dropping of
   contracts staged later; any nesting ......................... `block_rollback`, `block_snapshot_admissible`
-* reverted writes cannot influence a later update/commit ....... `commit_ignores_reverted`, `update_flushes_view`,
+* a history with nested block snapshots IS the history of its
+  surviving operations (same StateDB value, hence same tries,
+  same root content, same exports) ............................ `reverted_never_happened`, `live_block_snapshots_revertible`,
+                                                                 `root_ignores_reverted`
+* the log/index-stack/revision machinery refines plain maps
+  with "snapshot = copy" ....................................... `refines_spec`, `refines_spec_reads`, `spec_is_survivors`
+* what a commit persists is what the surviving operations
+  persist; raw store writes (SetCode/SetRawKV) are the one
+  exception: written at call time, never taken back ........... `persisted_ignores_reverted`
+* `HasKey` ..................................................... `has_latest`, `has_key_latest`
+* update/commit flush exactly the visible values ............... `commit_ignores_reverted`, `update_flushes_view`,
                                                                  `stage_empties_buffer`
 
 Where the statements stop (see notes/C12.md): rolling back *across* an `Update` (the tries are
@@ -30,7 +40,7 @@ That the real trie realises the abstract map and that its root is a function of 
 C10's subject. The account-level half of `StateDB.update` (storage roots written back into
 account records) is exercised by the correspondence run only, not carried by a theorem.
 -/
-import Aergo.Lemmas.BufferReads
+import Aergo.Lemmas.BufferStore
 
 namespace Aergo.Props.C12
 open Aergo.Buffer
@@ -81,6 +91,18 @@ theorem get_latest (b : Buf α) (h : b.Inv) (k : Nat) :
 /-- `has k` (used by `ContractState.HasKey`) holds exactly when `k` has a surviving entry. -/
 theorem has_latest (b : Buf α) (h : b.Inv) (k : Nat) :
     b.has k = (lastWrite b.entries k).isSome := Buf.has_spec h k
+
+/-- `ContractState.HasKey` (= `bufferedStorage.has(key, true)`) is true exactly when the key has a
+surviving buffered write - of either kind - or a value in the storage trie. NB: a key whose latest
+surviving write is a *delete* answers `true` while `GetData` returns nothing (test below); the code
+and the model agree, no caller in the pinned tree uses `HasKey`. -/
+theorem has_key_latest (st : Storage) (h : st.buf.Inv) (k : Nat) :
+    st.hasKey k = ((lastWrite st.buf.entries k).isSome || (st.trie.get k).isSome) :=
+  Storage.hasKey_spec h k
+
+/-- Test: the delete-marker case of `HasKey` on a concrete storage (key 1 is in the trie, deleted in the buffer). -/
+example : let st := (Storage.new [(1, 5)]).deleteData 1
+    st.hasKey 1 = true ∧ st.getData 1 = .found none ∧ st.hasKey 2 = false := by decide
 
 /-- `ContractState.GetData` reads the most recent non-reverted write to the key — a delete reads as
 absent — and only without one falls through to the trie. -/
@@ -183,7 +205,9 @@ theorem export_after_rollback (b b' : Buf α) (h : b.Inv) (n : Nat) (hr : b.roll
 /-! ### BlockState: accounts and all staged storages -/
 
 /-- Take a block snapshot of `s0`; run *any* history of account puts, writes through handles on
-staged storages, staging of contracts that had no staged storage, and block rollbacks to snapshots
+staged storages, staging of contracts that had no staged storage, contract-level rollbacks
+(`ContractState.Rollback`, the VM's recovery points) on staged storages that do not go below the
+revision our snapshot recorded, and block rollbacks to snapshots
 that cover ours (every snapshot taken after ours does, `block_snapshot_admissible`); then
 `BlockState.Rollback` to our snapshot is defined and returns `s0` itself: the account buffer, every
 storage staged at snapshot time (buffer, trie, dirty flag), and *no* storage staged later. -/
@@ -219,10 +243,185 @@ example :
     let inner : BlockSnap := ⟨2, [(2, 2)]⟩
     ∃ s', SDB.run s0.blockSnapshot s0
         [.putState 4 { nonce := 2, sroot := [] }, .setData 2 0 9, .stageNew 3 [] [(1, some 8)], .deleteData 2 1,
-         .rollback inner, .putState 5 { nonce := 3, sroot := [] }] = some s' ∧
+         .rollback inner, .putState 5 { nonce := 3, sroot := [] }, .setData 2 1 6, .setData 2 0 4,
+         .storageRollback 2 3, .stageNew 3 [] [(0, some 1)], .storageRollback 3 0] = some s' ∧
       s'.blockRollback s0.blockSnapshot = some s0 := by
   refine ⟨_, rfl, ?_⟩
   decide
+
+/-! ### nested block snapshots: the history IS the history of its surviving operations -/
+
+/-- Run any history of mutations (account puts, writes and contract-level rollbacks through handles on
+staged storages, staging of new contracts), `BlockState.Snapshot()`s and `BlockState.Rollback`s to
+live snapshots, in any nesting, on the model - undo logs, index stacks, revision numbers. The StateDB
+it ends in is *the very value* obtained by executing, with no snapshot at all, only the operations
+that were not reverted (`survivors h`, a function of the history alone: the list a block producer
+is left with after dropping the rejected transactions). Both sides are defined; the right side never
+sees a reverted write. Everything downstream - `Update`, the account and storage tries (what the
+state root commits to), exports, `Commit` - is therefore the same (`root_ignores_reverted`). -/
+theorem reverted_never_happened (s0 s : SDB) (sn : List BlockSnap) (h0 : s0.Inv) (h : List BOp)
+    (hr : runB (s0, []) h = some (s, sn)) : runPlain s0 (survivors h) = some s := by
+  obtain ⟨F', _, hG, _⟩ := runB_Good s0 h s0 [] [] (s, sn) (Good_init h0) hr
+  exact hG.cur
+
+/-- Along such a history every live snapshot stays revertible (the rollback is defined - no stale
+revision, no out-of-range index) and the state keeps its representation invariant. -/
+theorem live_block_snapshots_revertible (s0 s : SDB) (sn : List BlockSnap) (h0 : s0.Inv) (h : List BOp)
+    (hr : runB (s0, []) h = some (s, sn)) :
+    s.Inv ∧ ∀ b ∈ sn, ∃ s', s.blockRollback b = some s' ∧ s'.Inv := by
+  obtain ⟨F', hsn, hG, _⟩ := runB_Good s0 h s0 [] [] (s, sn) (Good_init h0) hr
+  refine ⟨hG.inv, ?_⟩
+  intro b hb
+  simp only at hsn
+  rw [hsn, List.mem_map] at hb
+  obtain ⟨f, hf, rfl⟩ := hb
+  obtain ⟨fi, fe, _, _⟩ := hG.fr f hf
+  exact ⟨f.st, Ext_restore fe fi, fi⟩
+
+/-- Hence `Update` (storage tries, storage roots into the account records, account trie - the
+content the state root commits to) and `Commit` give after the history exactly what they give
+after the surviving operations alone. (Unlike `commit_ignores_reverted`, the two sides are
+different executions.) -/
+theorem root_ignores_reverted (s0 s : SDB) (sn : List BlockSnap) (h0 : s0.Inv) (h : List BOp)
+    (hr : runB (s0, []) h = some (s, sn)) :
+    s.update = (runPlain s0 (survivors h)).bind SDB.update ∧
+    s.update.bind SDB.commit = ((runPlain s0 (survivors h)).bind SDB.update).bind SDB.commit := by
+  rw [reverted_never_happened s0 s sn h0 h hr]
+  exact ⟨rfl, rfl⟩
+
+/-- Test: hypotheses of `reverted_never_happened` on a history with two nested snapshots, a contract
+staged inside the inner one, a contract-level rollback, a revert of the inner snapshot, more writes
+and a revert of the outer one; three operations survive. -/
+example :
+    let s0 : SDB := (SDB.new [(7, { nonce := 1, sroot := [(0, 5)] })]).stage 7 ((Storage.new [(0, 5)]).setData 1 2)
+    let h : List BOp := [.op (.putState 1 { nonce := 1, sroot := [] }), .snap, .op (.setData 7 0 9), .snap,
+      .op (.stageNew 3 [] [(1, some 8)]), .op (.setData 7 1 6), .op (.storageRollback 7 2), .rollbackTo 1,
+      .op (.deleteData 7 0), .rollbackTo 0, .op (.setData 7 2 4), .op (.putState 1 { nonce := 2, sroot := [] })]
+    (∃ r, runB (s0, []) h = some r) ∧
+      survivors h = [.putState 1 { nonce := 1, sroot := [] }, .setData 7 2 4, .putState 1 { nonce := 2, sroot := [] }] := by
+  refine ⟨⟨_, rfl⟩, ?_⟩
+  decide
+
+/-! ### the independent specification: plain maps, a snapshot is a copy -/
+
+/-- `NewStateDB` shows what the specification with the trie content as account map shows. -/
+theorem abs_new (content : AMap AVal) : Abs (SDB.new content) ⟨content, []⟩ :=
+  ⟨fun _ => rfl, fun _ => trivial⟩
+
+/-- The model - undo logs with per-key index stacks, revision numbers, `rollback` popping entries,
+block snapshots as revision maps, dropping of storages staged later - *refines* the specification
+in which the visible account records and the visible content of every staged storage are plain
+maps, `snap` pushes a copy and `rollbackTo j` puts the `j`-th copy back: after ANY history of
+account puts, storage sets/deletes, staging of new contracts, snapshots and reverts in any nesting,
+every account and every key of every staged storage reads in the model what the specification
+says, and the same contracts are staged. (Contract-level rollbacks are specified per buffer:
+`rollback_restores_nested`; they are admitted in `reverted_never_happened`.) -/
+theorem refines_spec (s0 s : SDB) (sn : List BlockSnap) (σ0 : Spec) (h0 : s0.Inv) (hA : Abs s0 σ0)
+    (h : List BOp) (hp : ∀ o ∈ h, o.plain = true) (hr : runB (s0, []) h = some (s, sn)) :
+    Abs s (Spec.run (σ0, []) h).1 := by
+  rw [Spec.run_survivors]
+  refine Abs_runPlain (survivors h) s0 s σ0 hA ?_ (reverted_never_happened s0 s sn h0 h hr)
+  intro o ho
+  rcases survivorsAux_mem h [] [] o ho with h1 | h1
+  · cases h1
+  · have := hp _ h1
+    cases o <;> simp_all [BOp.plain, SpecOp]
+
+/-- The specification's two readings coincide: keeping copies and restoring them gives the state of
+executing only the surviving operations. -/
+theorem spec_is_survivors (σ0 : Spec) (h : List BOp) :
+    (Spec.run (σ0, []) h).1 = Spec.runPlain σ0 (survivors h) := Spec.run_survivors σ0 h
+
+/-- What `Abs` means for the code's read functions: `getState` returns the specification's account
+record; `GetData` through a handle on a staged storage returns the specification's value. -/
+theorem refines_spec_reads (s : SDB) (σ : Spec) (hi : s.Inv) (hA : Abs s σ) :
+    (∀ a, s.getState a = .found (σ.acct.get a)) ∧
+    (∀ c st, s.cache.get c = some st → ∃ m, σ.staged.get c = some m ∧ ∀ k, st.getData k = .found (m.get k)) := by
+  refine ⟨fun a => by rw [SDB.getState_spec hi.buf a, hA.1 a], ?_⟩
+  intro c st hc
+  have := hA.2 c
+  rw [hc] at this
+  cases hm : σ.staged.get c with
+  | none => rw [hm] at this; exact absurd this (by simp [StorAbs])
+  | some m =>
+    rw [hm] at this
+    exact ⟨m, rfl, fun k => by rw [Storage.getData_spec (SDB.sto_get hi hc) k, this k]⟩
+
+/-- Test: `refines_spec` on a concrete history; the specification ends with account 1 at nonce 2 and
+storage 7 = {0 ↦ 5, 2 ↦ 4}. -/
+example :
+    let s0 : SDB := SDB.new [(7, { nonce := 1, sroot := [(0, 5)] })]
+    let h : List BOp := [.op (.stageNew 7 [(0, 5)] []), .op (.putState 1 { nonce := 1, sroot := [] }), .snap,
+      .op (.setData 7 0 9), .snap, .op (.stageNew 3 [] [(1, some 8)]), .rollbackTo 1, .op (.deleteData 7 0),
+      .rollbackTo 0, .op (.setData 7 2 4), .op (.putState 1 { nonce := 2, sroot := [] })]
+    (∃ r, runB (s0, []) h = some r) ∧ (∀ o ∈ h, o.plain = true) ∧
+      (Spec.run (⟨[(7, { nonce := 1, sroot := [(0, 5)] })], []⟩, []) h).1 =
+        ⟨[(1, { nonce := 2, sroot := [] }), (7, { nonce := 1, sroot := [(0, 5)] })], [(7, [(0, 5), (2, 4)])]⟩ := by
+  refine ⟨⟨_, rfl⟩, by decide, by decide⟩
+
+/-! ### what reaches the store -/
+
+/-- Execute a block - mutations, snapshots, reverts, and raw store writes (`ContractState.SetCode` →
+`SetRawKV` → `store.Set`, at call time) interleaved -, then `Update` and `Commit`. The committed
+StateDB is the one obtained from the surviving operations alone, and so is everything `Commit`
+writes (`P`: per buffer the latest surviving value of every key, the trie contents). The ONLY trace
+a reverted operation leaves in the store is a raw write: `d` and the store of the surviving block
+differ exactly by the raw writes of reverted spans (content-addressed in the code: key = hash of
+the bytes; nothing in `P`, i.e. nothing reachable from the root, refers to them). The clause
+"writes made after the snapshot never influence the data persisted by a later commit" holds for
+every datum a commit persists and fails literally for `SetCode`/`SetRawKV`, which do not wait for
+the commit. -/
+theorem persisted_ignores_reverted (s0 s2 : SDB) (h0 : s0.Inv) (h : List POp) (d : List Datum)
+    (hc : commitBlock s0 h = some (s2, d)) :
+    ∃ P, d = (POp.raws h).map Datum.raw ++ P ∧
+      commitBlock s0 (survivorsP h) = some (s2, (POp.raws (survivorsP h)).map Datum.raw ++ P) ∧
+      ∀ t ∈ POp.raws (survivorsP h), t ∈ POp.raws h := by
+  simp only [commitBlock] at hc
+  split at hc
+  · cases hc
+  · rename_i s sn hr
+    split at hc
+    · cases hc
+    · rename_i s1 hu
+      split at hc
+      · cases hc
+      · rename_i s2' hcm
+        simp only [Option.some.injEq, Prod.mk.injEq] at hc
+        obtain ⟨rfl, rfl⟩ := hc
+        have hmem : ∀ x ∈ survivorsP h, (∃ o, x = POp.db (.op o)) ∨ ∃ t, x = POp.raw t := by
+          intro x hx
+          rcases survivorsPAux_mem h [] [] x hx with h1 | h1
+          · cases h1
+          · exact h1.2
+        have hdb : POp.dbOps (survivorsP h) = (survivors (POp.dbOps h)).map BOp.op := by
+          rw [POp.dbOps_of_survivors _ hmem]
+          have := survivorsP_proj h [] [] List.Pairwise.nil (by intro m hm; cases hm)
+          simp only [POp.ops, List.map_nil] at this
+          rw [show POp.ops (survivorsP h) = POp.ops (survivorsPAux ([], []) h).1 from rfl, this]
+          rfl
+        have hadm : ∀ o ∈ survivors (POp.dbOps h), BOp.admissible none o = true := by
+          intro o ho
+          rcases survivorsAux_mem (POp.dbOps h) [] [] o ho with h1 | h1
+          · cases h1
+          · exact runB_admissible _ _ _ hr o h1
+        have hplain := reverted_never_happened s0 s sn h0 (POp.dbOps h) hr
+        refine ⟨s1.persisted, rfl, ?_, ?_⟩
+        · simp only [commitBlock, hdb, runB_ops _ s0 hadm, hplain, Option.map_some, hu, hcm]
+        · intro t ht
+          rw [POp.mem_raws] at ht ⊢
+          rcases survivorsPAux_mem h [] [] _ ht with h1 | h1
+          · cases h1
+          · exact h1.1
+
+/-- Test: a block with a deploy (raw write 11 + account put) inside a reverted snapshot and another one
+(raw write 12) that survives: both raw writes are in the store, only the second is among the
+surviving operations. -/
+example :
+    let h : List POp := [.db .snap, .raw 11, .db (.op (.putState 1 { nonce := 1, sroot := [], code := 11 })), .db (.rollbackTo 0),
+      .raw 12, .db (.op (.putState 2 { nonce := 1, sroot := [], code := 12 }))]
+    (∃ r, commitBlock (SDB.new []) h = some r) ∧ POp.raws h = [11, 12] ∧
+      survivorsP h = [.raw 12, .db (.op (.putState 2 { nonce := 1, sroot := [], code := 12 }))] := by
+  refine ⟨⟨_, rfl⟩, by decide, by decide⟩
 
 /-! ### reverted writes and update/commit -/
 
